@@ -274,7 +274,9 @@ func (r *c09Run) note(s string) {
 	r.mu.Unlock()
 }
 
-func (r *c09Run) lands(st *c09Stop, i, ph int) bool { return st != nil && st.Iter == i && st.Phase == ph }
+func (r *c09Run) lands(st *c09Stop, i, ph int) bool {
+	return st != nil && st.Iter == i && st.Phase == ph
+}
 
 func (r *c09Run) doCancel() {
 	r.cancel()
@@ -855,10 +857,10 @@ func c09Generate(tier string, seed int64) (serial []*c09Scn, par []*c09Scn) {
 		enum(full, 2)
 		enum(full, 3)
 		enum(small, 4)
-		sample(full, 4, 1500)
-		sample(full, 5, 600)
-		sample(full, 6, 300)
-		sample(small, 8, 100)
+		sample(full, 4, 3000)
+		sample(full, 5, 1200)
+		sample(full, 6, 600)
+		sample(small, 8, 300)
 	}
 	// back-off only: long runs of failures with varied base/max (including base > max)
 	for c, bm := range [][2]time.Duration{{20 * ms, 80 * ms}, {30 * ms, 30 * ms}, {50 * ms, 20 * ms}, {15 * ms, 100 * ms}} {
